@@ -16,7 +16,7 @@ def upstream_pull_comps(sc, ci, seen=None):
             if s in seen:
                 continue
             seen.add(s)
-            if sc["components"][s]["kind"] == "pull":
+            if sc["components"][s]["kind"] in ("pull", "wsum"):
                 out.add(s)
                 out |= upstream_pull_comps(sc, s, seen)
     return out
@@ -39,7 +39,7 @@ def shared_pull_upstream(sc, comp_name):
 
 
 def any_shared_pull(sc):
-    return any(c["kind"] == "pull" and len(consumers_of(sc, i)) >= 2
+    return any(c["kind"] in ("pull", "wsum") and len(consumers_of(sc, i)) >= 2
                for i, c in enumerate(sc["components"]))
 
 
